@@ -178,6 +178,10 @@ func newSimCluster(n int) *simCluster {
 }
 
 func (c *simCluster) Close() {
+	atomic.AddInt32(&shuttingDown, 1)
+	defer func() {
+		go func() { time.Sleep(200 * time.Millisecond); atomic.AddInt32(&shuttingDown, -1) }()
+	}()
 	for _, n := range c.nodes {
 		for _, ds := range n.node.DatasetManager.VerifDatasets() {
 			for i := 0; i < ds.VerifPartitionCount(); i++ {
@@ -186,6 +190,9 @@ func (c *simCluster) Close() {
 				}
 			}
 		}
+	}
+	time.Sleep(20 * time.Millisecond)
+	for _, n := range c.nodes {
 		close(n.group.stopped)
 		n.node.Allocator.Stop()
 		n.db.Close()
